@@ -98,6 +98,7 @@ type LenProver struct {
 	depth    int
 	memo     map[*ssa.BasicBlock][][]lfact
 	memoVia  map[*ssa.BasicBlock][]int
+	memoHist map[*ssa.BasicBlock][]map[*ssa.BasicBlock]int // per disjunct: which predecessor the path took into blocks that merge booleans
 	dbg      map[ssa.Value]string
 	stored   map[*types.Var]bool
 	noEntry  bool
@@ -105,7 +106,7 @@ type LenProver struct {
 }
 
 func NewLenProver(p *Prog, fn *ssa.Function) *LenProver {
-	return &LenProver{p: p, fn: fn, atomVal: map[string]ssa.Value{}, atomLen: map[string]bool{}, names: map[ssa.Value]string{}, alts: map[string][][]lfact{}, visiting: map[ssa.Value]bool{}, memo: map[*ssa.BasicBlock][][]lfact{}, memoVia: map[*ssa.BasicBlock][]int{}}
+	return &LenProver{p: p, fn: fn, atomVal: map[string]ssa.Value{}, atomLen: map[string]bool{}, names: map[ssa.Value]string{}, alts: map[string][][]lfact{}, visiting: map[ssa.Value]bool{}, memo: map[*ssa.BasicBlock][][]lfact{}, memoVia: map[*ssa.BasicBlock][]int{}, memoHist: map[*ssa.BasicBlock][]map[*ssa.BasicBlock]int{}}
 }
 
 func (lp *LenProver) name(v ssa.Value) string {
@@ -795,7 +796,7 @@ func entails(fs []lfact, goal lin) bool {
 // Returns ok, the facts used and the first failing goal.
 // edgeFacts: condition known on the edge from->to, plus phi equalities of `to` for that edge.
 func (lp *LenProver) edgeFacts(from, to *ssa.BasicBlock, predIdx int) []lfact {
-	fs, _ := lp.edgeFactsVia(from, to, predIdx, -1)
+	fs, _ := lp.edgeFactsVia(from, to, predIdx, -1, nil)
 	return fs
 }
 
@@ -803,7 +804,7 @@ func (lp *LenProver) edgeFacts(from, to *ssa.BasicBlock, predIdx int) []lfact {
 // `from` (-1 unknown). A branch condition that is a boolean phi of `from` (a && / || evaluated as a
 // value, e.g. in a switch case) is resolved through that predecessor; feasible=false when the resolved
 // constant contradicts the branch taken.
-func (lp *LenProver) edgeFactsVia(from, to *ssa.BasicBlock, predIdx int, via int) (out []lfact, feasible bool) {
+func (lp *LenProver) edgeFactsVia(from, to *ssa.BasicBlock, predIdx int, via int, hist map[*ssa.BasicBlock]int) (out []lfact, feasible bool) {
 	feasible = true
 	if len(from.Instrs) > 0 {
 		if iff, ok := from.Instrs[len(from.Instrs)-1].(*ssa.If); ok && len(from.Succs) == 2 && from.Succs[0] != from.Succs[1] {
@@ -818,11 +819,31 @@ func (lp *LenProver) edgeFactsVia(from, to *ssa.BasicBlock, predIdx int, via int
 					}
 					break
 				}
-				if phi, isPhi := cond.(*ssa.Phi); isPhi && phi.Block() == from {
-					if via >= 0 && via < len(phi.Edges) {
-						cond = phi.Edges[via]
+				// a merged boolean (short-circuit && / || in an expression context): its value on this path is
+				// the edge of the predecessor the path came through — also for the nested merges it refers to
+				for depth := 0; depth < 6; depth++ {
+					phi, isPhi := cond.(*ssa.Phi)
+					if !isPhi {
+						break
+					}
+					idx := -1
+					if phi.Block() == from {
+						idx = via
+					} else if h, ok := hist[phi.Block()]; ok {
+						idx = h
+					}
+					if idx >= 0 && idx < len(phi.Edges) {
+						cond = phi.Edges[idx]
+						for {
+							if u, isU := cond.(*ssa.UnOp); isU && u.Op == token.NOT {
+								cond, neg = u.X, !neg
+								continue
+							}
+							break
+						}
 					} else {
 						cond = nil
+						break
 					}
 				}
 				want := truth != neg
@@ -882,6 +903,7 @@ func (lp *LenProver) pathFacts(b *ssa.BasicBlock) [][]lfact {
 		}
 		lp.memo[b] = r
 		lp.memoVia[b] = make([]int, len(r))
+		lp.memoHist[b] = make([]map[*ssa.BasicBlock]int, len(r))
 		for i := range lp.memoVia[b] {
 			lp.memoVia[b][i] = -1
 		}
@@ -889,6 +911,7 @@ func (lp *LenProver) pathFacts(b *ssa.BasicBlock) [][]lfact {
 	}
 	var out [][]lfact
 	var vias []int
+	var hists []map[*ssa.BasicBlock]int
 	seen := map[string]bool{}
 	for i, pr := range b.Preds {
 		if b.Dominates(pr) {
@@ -896,14 +919,27 @@ func (lp *LenProver) pathFacts(b *ssa.BasicBlock) [][]lfact {
 		}
 		prPaths := lp.pathFacts(pr)
 		prVia := lp.memoVia[pr]
+		prHist := lp.memoHist[pr]
 		for di, d := range prPaths {
 			via := -1
 			if di < len(prVia) {
 				via = prVia[di]
 			}
-			ef, feasible := lp.edgeFactsVia(pr, b, i, via)
+			var hist map[*ssa.BasicBlock]int
+			if di < len(prHist) {
+				hist = prHist[di]
+			}
+			ef, feasible := lp.edgeFactsVia(pr, b, i, via, hist)
 			if !feasible {
 				continue
+			}
+			nh := hist
+			if hasBoolPhi(b) {
+				nh = make(map[*ssa.BasicBlock]int, len(hist)+1)
+				for k, v := range hist {
+					nh[k] = v
+				}
+				nh[b] = i
 			}
 			nd := append(lp.applyStores(append([]lfact{}, d...), pr, nil), ef...)
 			var ks []string
@@ -912,11 +948,12 @@ func (lp *LenProver) pathFacts(b *ssa.BasicBlock) [][]lfact {
 			}
 			sort.Strings(ks)
 			k := strings.Join(ks, ";")
-			k = fmt.Sprintf("%d|%s", i, k)
+			k = fmt.Sprintf("%d|%s|%s", i, k, histKey(nh))
 			if !seen[k] {
 				seen[k] = true
 				out = append(out, nd)
 				vias = append(vias, i)
+				hists = append(hists, nh)
 			}
 		}
 	}
@@ -942,9 +979,11 @@ func (lp *LenProver) pathFacts(b *ssa.BasicBlock) [][]lfact {
 		}
 		out = [][]lfact{common}
 		vias = []int{-1}
+		hists = []map[*ssa.BasicBlock]int{nil}
 	}
 	lp.memo[b] = out
 	lp.memoVia[b] = vias
+	lp.memoHist[b] = hists
 	return out
 }
 
@@ -1480,4 +1519,29 @@ func rebuildGoals(lp *LenProver, ins ssa.Instruction) []lin {
 		return []lin{ix.scale(-1), ix.add(ln, -1).add(linConst(1), 1)}
 	}
 	return nil
+}
+
+func hasBoolPhi(b *ssa.BasicBlock) bool {
+	for _, ins := range b.Instrs {
+		phi, ok := ins.(*ssa.Phi)
+		if !ok {
+			return false
+		}
+		if bt, ok := phi.Type().Underlying().(*types.Basic); ok && bt.Info()&types.IsBoolean != 0 {
+			return true
+		}
+	}
+	return false
+}
+
+func histKey(h map[*ssa.BasicBlock]int) string {
+	if len(h) == 0 {
+		return ""
+	}
+	var ks []string
+	for b, i := range h {
+		ks = append(ks, fmt.Sprintf("%d:%d", b.Index, i))
+	}
+	sort.Strings(ks)
+	return strings.Join(ks, ",")
 }
